@@ -75,7 +75,7 @@ impl Tour {
         }
 
         // NOTE: get start location, assume that the tour starts always from it (e.g. from depot).
-        let start_node = self.index_of(self.path[0])?;
+        let start_node = *self.path.first()?;
 
         let mut successors = HashMap::new();
         let mut node = start_node;
